@@ -39,7 +39,8 @@ _GEN2_TEXT = {
     "C02": (" SECOND ROUND (Generated/FuncsRoad.lean, bridged in Props/C02_gen2.lean): Position.hasRoad (the two loops over the group slices with their breaks) and bitboard.FloodGroups "
             "(the loop over the set bits with its appends, calling the regenerated Flood) are regenerated: hasRoad_is_source (all positions), gameOver_is_source_full (the model's gameOver "
             "is the regenerated GameOver applied to the regenerated hasRoad: nothing of the game-end decision is a hand-written mirror any more), floodGroups_is_source (the model's group "
-            "enumeration is the regenerated function; whitelist fuel 66 = the model's 65 + 1), analyze_is_source (the stored group lists are the regenerated FloodGroups of the road pieces)."),
+            "enumeration is the regenerated function; whitelist fuel 66 = the model's 65 + 1), analyze_is_source (the stored group lists are the regenerated FloodGroups of the road pieces), "
+            "winDetails_is_source (Position.WinDetails - over?, winner, road or flats, the flat counts - is the regenerated function of the fields and the regenerated hasRoad)."),
     "C03": (" REGENERATED on every run (Generated/FuncsMoveGen.lean) and bridged in Props/C03_gen.lean: tak.MkSlides, calculateSlides, the init that fills the `slides` table, and "
             "Position.AllMoves itself (four nested loops, appends, continues, the index reads p.Height[i] and slides[h], a local struct type and an array literal), with Go's index panics "
             "explicit. slidesInit_is_source: the table the regenerated init builds from the zero value IS the model's slidesTable (kernel evaluation of the finite table). "
